@@ -245,7 +245,8 @@ func xmlRefDOM(text string) (*xnode, error) {
 				e.alt = boundBy(e.URI)
 			}
 			for _, a := range t.Attr {
-				an := &xnode{Kind: "attr", Local: a.Name.Local, Prefix: a.Name.Space, Text: a.Value}
+				// (the value of an attribute is its one text child, also when it is empty)
+				an := &xnode{Kind: "attr", Local: a.Name.Local, Prefix: a.Name.Space, Text: a.Value, Kids: []*xnode{{Kind: "text", Text: a.Value}}}
 				switch {
 				case a.Name.Space == "xmlns": // a declaration: the tree keeps it as an attribute with prefix xmlns and no URI
 				case a.Name.Space != "": // an unprefixed attribute is in no namespace
@@ -303,7 +304,6 @@ func idrToX(n *idr.Node) *xnode {
 		x.Kind, x.Local, x.Prefix, x.URI = "elem", n.Data, xs.NamespacePrefix, xs.NamespaceURI
 	case idr.AttributeNode:
 		x.Kind, x.Local, x.Prefix, x.URI, x.Text = "attr", n.Data, xs.NamespacePrefix, xs.NamespaceURI, n.InnerText()
-		return x
 	case idr.TextNode:
 		x.Kind, x.Text = "text", n.Data
 		return x
@@ -355,11 +355,14 @@ func c08XML(args []string) int {
 		if r.Intn(5) == 0 { // white space inside attribute values: literal and as character references (reported verbatim)
 			attrs += ` w="` + []string{"a\tb", "a\nb", "a&#10;b", "t&#9;x&#13;", " two  spaces ", "\n"}[r.Intn(6)] + `"`
 		}
+		if r.Intn(6) == 0 { // values that are there and empty
+			attrs += ` e=""`
+		}
 		var kids strings.Builder
 		for k := r.Intn(4); k > 0 && depth < 4; k-- {
 			switch r.Intn(4) {
 			case 0:
-				kids.WriteString([]string{"text", " ", "é世", "&lt;x&gt;", "<![CDATA[cd]]>"}[r.Intn(5)])
+				kids.WriteString([]string{"text", " ", "é世", "&lt;x&gt;", "<![CDATA[cd]]>", "<![CDATA[]]>"}[r.Intn(6)])
 			case 1:
 				kids.WriteString("<!--c-->")
 			default:
